@@ -268,7 +268,12 @@ def install(I):
             return (mk_priv(I, a[1], int.from_bytes(kt, 'big') if kt is not None else ED), None)
         form, (kt, s) = is_form(b, 'marshalpriv', 2)
         if not I.fork_bool(simp_bool(form), 'unmarshal-priv'):
-            return (None, mk_error(I, 'unmarshal private key failed'))
+            # a private key has more than one accepted encoding (libp2p still parses the legacy 96-byte Ed25519 layout):
+            # foreign bytes may also be ANOTHER encoding of some key -- a second free constructor over the same fields
+            form2, (kt2, s2) = is_form(b, 'marshalpriv-legacy', 2)
+            if not I.fork_bool(simp_bool(form2), 'unmarshal-priv-legacy'):
+                return (None, mk_error(I, 'unmarshal private key failed'))
+            kt, s = kt2, s2
         ktype = z3.simplify(z3.Extract(31, 0, u64_of_term(kt)))
         I.add(kt == u64term(ktype))  # the key-type field is a 32-bit enum in canonical encoding
         I.add(T.blen(s) >= 0)
